@@ -68,8 +68,8 @@ def weight_text(w, d):
 
 
 def gen_weight(rnd, d):
-    w = G.snap(rnd.choice([1.0, 1.0, 0.5, 0.25, 0.75, rnd.uniform(0.01, 0.95)]), d)
-    return w if (w > 0 and (w == 1.0 or abs(w - 1.0) > 0.0015)) else 1.0
+    w = G.snap(rnd.choice([1.0, 1.0, 1.0, 0.5, 0.25, 0.75, 0.0, rnd.uniform(0.01, 0.95), rnd.uniform(0.01, 0.95)]), d)
+    return w if (w >= 0 and (w == 1.0 or abs(w - 1.0) > 0.0015)) else 1.0
 
 
 def gen_range(rnd):
@@ -193,6 +193,7 @@ def build(fl, spec):
         rules = []
         for r in rb["rules"]:
             rule = fl.Rule.create(r["text"])
+            rule.weight = r["weight"]  # set on the object too: the spec, not the parser, is the ground truth
             rule.enabled = r["enabled"]
             rules.append(rule)
         a = rb["activation"]
